@@ -38,6 +38,24 @@ var c01kinds = []struct {
 	{"null", nil}, {"true", true}, {"zero", 0}, {"float", 1.5}, {"empty-string", ""}, {"string", "s"}, {"var", "${U}"},
 	{"empty-list", []any{}}, {"list-str", []any{"s"}}, {"list-int", []any{0}}, {"list-emptymap", []any{map[string]any{}}}, {"list-map", []any{map[string]any{"k": "s"}}},
 	{"empty-map", map[string]any{}}, {"map-str", map[string]any{"k": "s"}}, {"map-map", map[string]any{"k": map[string]any{}}},
+	// sequences that repeat their keys (two keys, each given twice, first pair before the second key appears)
+	{"list-dup-kv", []any{"A=1", "A=2", "B=1", "B=2"}},
+	{"list-dup-map", []any{map[string]any{"source": "a", "target": "/t", "published": "1"}, map[string]any{"source": "b", "target": "/t", "published": "1"},
+		map[string]any{"source": "a", "target": "/u", "published": "2"}, map[string]any{"source": "b", "target": "/u", "published": "2"}}},
+}
+
+// c01renamed moves the witness document onto the names the full corpus document uses, so that both define the same entries.
+func c01renamed(doc map[string]any) map[string]any {
+	ren := map[string][2]string{"services": {"s", "web"}, "networks": {"n", "front"}, "volumes": {"v", "data"}, "secrets": {"x", "s_file"}, "configs": {"x", "c_file"}}
+	for top, r := range ren {
+		if m, ok := doc[top].(map[string]any); ok {
+			if v, ok := m[r[0]]; ok {
+				delete(m, r[0])
+				m[r[1]] = v
+			}
+		}
+	}
+	return doc
 }
 
 // c01docAt builds a minimal document with v at path (keys, "[]" = first list item, "key" = a free key).
@@ -157,7 +175,9 @@ func (c01) Run(c *core.Ctx) {
 	paths = append(paths, sch.Paths([]string{"include"}, "key", 4)...)
 	c.Count("schema_paths", int64(len(paths)))
 	valid := "services:\n  s:\n    image: i\n"
-	routes := []string{"single", "second-doc", "override-on-valid", "valid-override-on-it", "extends-base", "included"}
+	routes := []string{"single", "second-doc", "override-on-valid", "valid-override-on-it", "extends-base", "included",
+		"over-rich", "rich-over-it", "it-extends-rich", "rich-extends-it", "it-includes-rich", "rich-includes-it"}
+	richExtending := strings.Replace(corpusRich, "\n  web:\n", "\n  web:\n    extends: {file: ./base.yaml, service: s}\n", 1)
 	for _, p := range paths {
 		ps := strings.Join(p, ".")
 		for _, k := range c01kinds {
@@ -193,8 +213,50 @@ func (c01) Run(c *core.Ctx) {
 					case "included":
 						files["inc.yaml"] = doc
 						files["compose.yaml"] = "include:\n  - ./inc.yaml\nservices:\n  main:\n    image: m\n"
+					// the same, against the full corpus document: both sides define the attribute
+					case "over-rich":
+						files["compose.yaml"] = corpusRich
+						files["over.yaml"] = mapToYAML(c01renamed(c01docAt(p, k.val)))
+						main = append(main, "over.yaml")
+					case "rich-over-it":
+						files["compose.yaml"] = mapToYAML(c01renamed(c01docAt(p, k.val)))
+						files["over.yaml"] = corpusRich
+						main = append(main, "over.yaml")
+					case "it-extends-rich":
+						d := c01docAt(p, k.val)
+						var svc map[string]any
+						ok := false
+						if svcs, isMap := d["services"].(map[string]any); isMap {
+							svc, ok = svcs["s"].(map[string]any)
+						}
+						if p[0] != "services" || !ok {
+							return core.Outcome{Class: "na", Trivial: true}
+						}
+						if _, has := svc["extends"]; has {
+							return core.Outcome{Class: "na", Trivial: true}
+						}
+						svc["extends"] = map[string]any{"file": "./rich.yaml", "service": "web"}
+						files["compose.yaml"] = mapToYAML(d)
+						files["rich.yaml"] = corpusRich
+					case "rich-extends-it":
+						if p[0] != "services" {
+							return core.Outcome{Class: "na", Trivial: true}
+						}
+						files["base.yaml"] = doc
+						files["compose.yaml"] = richExtending
+					case "it-includes-rich":
+						if p[0] == "include" {
+							return core.Outcome{Class: "na", Trivial: true}
+						}
+						d := c01renamed(c01docAt(p, k.val))
+						d["include"] = []any{"./rich.yaml"}
+						files["compose.yaml"] = mapToYAML(d)
+						files["rich.yaml"] = corpusRich
+					case "rich-includes-it":
+						files["compose.yaml"] = "include:\n  - ./inc.yaml\n" + corpusRich
+						files["inc.yaml"] = doc
 					}
-					inmem := route != "extends-base" && route != "included"
+					inmem := route == "single" || route == "second-doc" || route == "override-on-valid" || route == "valid-override-on-it" || route == "over-rich" || route == "rich-over-it"
 					return c01total(id, &Scn{Files: files, Main: main, Env: map[string]string{"U": "u"}, InMem: inmem}, "default")
 				})
 			}
